@@ -49,7 +49,10 @@ def copy_subjects(prog, eff):
 
 
 def check_total(chk, rule, prog, eff, cache, CS, floor=10):
-    SUBJECTS = copy_subjects(prog, eff)
+    in_context = set()
+    for g_ in prog.lib_funcs():
+        in_context |= O.static_callees(prog, eff, g_.name)
+    SUBJECTS = [n for n in copy_subjects(prog, eff) if n not in in_context]    # helpers are judged where they are inlined
     SRC = ("arg", 0)
     ntot = 0
     for name in SUBJECTS:
